@@ -26,6 +26,13 @@ theorem shutdown_order :
       ["recv.Stop", "pipe.Close", "flowProducer.Close", "transporter.Close", "srv.Shutdown", "close(q)", "wg.Wait"] := by
   decide
 
+/-- main() installs the SIGTERM / SIGINT handler BEFORE it starts the first receiver and waits for the signal after the
+    last one: a signal that arrives while the collector is still starting is parked, not fatal — the datagrams taken in
+    by the receivers already running are processed by the orderly shutdown (regenerated from cmd/goflow2/main.go) -/
+theorem startup_order :
+    Goflow.Generated.startupOrder = ["signal.Notify", "start receivers", "<-c"] := by
+  decide
+
 /-- the synchronisation skeleton of Stop / Start / init / the readers and the workers is the one the
     transition system was written for (regenerated from utils/udp.go) -/
 theorem skeleton_matches :
